@@ -7,7 +7,7 @@ fn usage() -> ! {
 
 fn main() {
     let args: Vec<String> = std::env::args().collect();
-    if args.len() < 3 {
+    if args.len() < 2 {
         usage();
     }
     let props = jpv::props::all();
@@ -17,6 +17,16 @@ fn main() {
         .and_then(|s| s.parse::<i64>().ok().map(|x| x as u64).or_else(|| s.parse::<u64>().ok()))
         .unwrap_or(20260926);
     match args[1].as_str() {
+        "selftest" => match jpv::rfc::selftest() {
+            Ok(n) => {
+                println!("selftest ok: {} cases", n);
+                std::process::exit(0)
+            }
+            Err(e) => {
+                eprintln!("selftest FAILED: {}", e);
+                std::process::exit(2)
+            }
+        },
         "run" => {
             let p = match find(&args[2]) {
                 Some(p) => p,
